@@ -690,6 +690,28 @@ def rule_completion(ctx):
         c = p.cls(q)
         host = c.methods["_connect_transport"] if fw == "twisted" else c.methods["_wrap_connection_future"]
         ctx.analysed(host)
+        if fw == "asyncio":
+            # every connection future that _connect_transport hands back (proxy, tcp, unix endpoint alike) goes through the wrapper that fails the
+            # per-connection future when the connection is refused or dies before a session exists -- else no further attempt is ever made
+            ct = c.methods["_connect_transport"]
+            ctx.analysed(ct)
+
+            def wrapped(fn_, depth=0):
+                rets = [s_ for s_ in walk_no_defs(fn_.node) if isinstance(s_, ast.Return) and s_.value is not None]
+                if not rets:
+                    return False
+                okr = True
+                for s_ in rets:
+                    v = s_.value
+                    if isinstance(v, ast.Call) and self_call(v, "_wrap_connection_future"):
+                        continue
+                    if depth < 2 and isinstance(v, ast.Call) and self_call(v) and v.func.attr.startswith("_") and v.func.attr in c.methods and wrapped(c.methods[v.func.attr], depth + 1):
+                        continue
+                    okr = False
+                return okr
+            ctx.ob("asyncio: every connection future returned by _connect_transport is wrapped by _wrap_connection_future (all endpoint kinds)", wrapped(ct),
+                   "an endpoint branch returns the bare connection future: a connection that is established but dies before the session exists neither fails the "
+                   "per-connection future nor leads to another attempt", ct.loc())
         succ = closure(host, "on_connect_success")
         lost = closure(host, "on_connect_success.lost")
         ocf = closure(host, "on_connect_failure")
